@@ -19,12 +19,12 @@ PROP = dict(
         "an argument EXPRESSION that itself fails with a missing attribute also triggers the ?: fallback "
         "('abc'((a:1).b)?:9 = 9); arguments are values here",
     ],
-    level_text="Proof: 18 Lean theorems. Specification = the property (a call returns v iff v is the only value paired with the key; "
+    level_text="Proof: 19 Lean theorems. Specification = the property (a call returns v iff v is the only value paired with the key; "
                "no-value / more-than-one errors characterised; >> keeps every (key, attribute) pair). The transliterated Go code refines it: "
                "call_refines (SetCall over CallAll of String/Bytes/Array/Dict/Relation/UnionSet/TrueSet/EmptySet = Spec.call on the meaning, incl. the "
                "error class), call_rep_indep, safecall_refines/safecall_fallback (fallback iff no value), seqarrow_refines (String/Bytes/Array/Dict: "
                "values mapped, keys/offsets/holes kept, error iff the specification has one), offset_refines, offset_bad_error, offset_compose, "
-               "concat_error_iff - all at full strength, for all inputs. Through the set builder (asString/asBytes/asArray/NewDict/relations, proved "
+               "concat_error_iff, results_wf (results of >>, ++, \\ are well-formed, so the theorems compose) - all at full strength, for all inputs. Through the set builder (asString/asBytes/asArray/NewDict/relations, proved "
                "exact on representable sets): concat_refines_partial and seqarrow_set_refines_partial/seqarrow_set_error carry the hypothesis "
                "'the specified result is representable' (outside KF-superimposed/KF-bytes-holes); concat_full_false and seqarrow_full_false are "
                "machine-checked witnesses that the full statements fail. The model is tied to the Go code by running both on generated arr.ai "
